@@ -72,6 +72,8 @@ def run_case(sub, case):
     except StopCampaign:
         raise
     except RecursionError as e:
+        if not innermost_is_sut(e):
+            raise  # the harness's own recursion (an oracle on an input beyond its size): a harness error, never a violation
         out = Out()
         out.fail(f"exception|RecursionError|{exc_site(e)}", "RecursionError")
     except Exception as e:  # noqa: BLE001
